@@ -63,7 +63,7 @@ enum Outcome {
     Refused(String),
     /// decided, written (None = nothing decodable was written), error from the set call,
     /// state left on the chip after the rest of the prepare flow (packet parameters, channel)
-    Decided(u8, Option<bool>, Option<String>, Option<bool>),
+    Decided(u8, Option<bool>, Option<String>, Option<bool>, Option<(u8, u8)>),
 }
 
 /// Drive one driver: decide, program, decode.
@@ -107,6 +107,22 @@ fn drive<RK: RadioKind>(rk: &mut RK, bus: &Bus, sfi: usize, bwi: usize, cri: usi
         Err(t) => Outcome::Panic(t),
         Ok(res) => {
             let w = decode(&bus.chip());
+            // the decision was taken for the requested (SF, BW): the chip must be given that very pair
+            // (SX126x / LR11xx SetModulationParams: SF as a number, BW by the data sheets' code)
+            let wrong_pair = {
+                let c = bus.chip();
+                match (c.family, c.mod_params) {
+                    (Family::Sx126x | Family::Lr11xx, Some((_, p))) => {
+                        let want_bw = [0x00u8, 0x08, 0x01, 0x09, 0x02, 0x0A, 0x03, 0x04, 0x05, 0x06][bwi];
+                        if p[0] != sf_num(sfi) as u8 || p[1] != want_bw {
+                            Some((p[0], p[1]))
+                        } else {
+                            None
+                        }
+                    }
+                    _ => None,
+                }
+            };
             // the rest of what LoRa::prepare_for_tx / prepare_for_rx do after the modulation
             // parameters: the bit must still be there when the chip transmits or listens
             let after = if res.is_ok() {
@@ -129,7 +145,7 @@ fn drive<RK: RadioKind>(rk: &mut RK, bus: &Bus, sfi: usize, bwi: usize, cri: usi
             } else {
                 None
             };
-            Outcome::Decided(decided, w, res.err().map(|e| format!("{:?}", e)), after)
+            Outcome::Decided(decided, w, res.err().map(|e| format!("{:?}", e)), after, wrong_pair)
         }
     }
 }
@@ -196,6 +212,7 @@ impl Monitor for C15 {
             "true LoRa bandwidths are 500 kHz / {64,48,32,24,16,12,8,4,2,1}; the reference is on <=> 2^SF/BW >= 16.38 ms in exact rational arithmetic (no cell lies between 16.38 and 16.384 ms)".into(),
             "SF8/15.6 kHz is set-valued for the reference (16.384 ms with the true 15.625 kHz, 16.379 ms with the nominal 15.63 kHz) but all implementations must still agree with each other there".into(),
             "a pair a driver refuses (SX127x SF5, SX1272 below 125 kHz, LR1110 7.8 kHz, 250/500 kHz below 400 MHz) counts as 'chip does not support the pair' and is not judged".into(),
+            "SX126x / LR11xx SetModulationParams carry the spreading factor as a number and the bandwidth by code (7.81 kHz 0x00, 10.42 0x08, 15.63 0x01, 20.83 0x09, 31.25 0x02, 41.67 0x0A, 62.5 0x03, 125 0x04, 250 0x05, 500 0x06); both must be those of the pair the decision was taken for".into(),
             "written bit: SX126x SetModulationParams (0x8B) 4th parameter bit 0; SX1276 RegModemConfig3 (0x26) bit 3; SX1272 RegModemConfig1 (0x1D) bit 0; LR11xx SetModulationParam (0x020F) 4th parameter bit 0".into(),
             "a panic inside create_modulation_params/set_modulation_params is recorded as an event (the statement does not speak about panics); a run where an implementation never decides is inconclusive".into(),
         ]
@@ -204,7 +221,7 @@ impl Monitor for C15 {
         vec![
             "decided:calc", "decided:sx1261", "decided:sx1262", "decided:stm32wl", "decided:sx1272", "decided:sx1276", "decided:lr1110",
             "written:sx1261", "written:sx1262", "written:stm32wl", "written:sx1272", "written:sx1276", "written:lr1110",
-            "listen_judged", "listen_ref_on", "listen_ref_off",
+            "listen_judged", "listen_ref_on", "listen_ref_off", "prepared_again_after_listen",
             "cell:lorawan", "cell:tsym=16.384ms", "cell:tsym>16.384ms", "cell:tsym<16.38ms", "cell:setvalued", "ref_on", "ref_off",
         ]
     }
@@ -245,7 +262,7 @@ impl Monitor for C15 {
                     }
                     let out = if imp == 0 {
                         match trap(|| BaseBandModulationParams::new(SFS[sfi], BWS[bwi], CRS[cri]).ldro) {
-                            Ok(l) => Outcome::Decided(l as u8, None, None, None),
+                            Ok(l) => Outcome::Decided(l as u8, None, None, None, None),
                             Err(t) => Outcome::Panic(t),
                         }
                     } else {
@@ -296,7 +313,12 @@ impl Monitor for C15 {
                             col.event(&format!("refused:{}", name));
                             col.event(&format!("refused:{}:{}", name, e));
                         }
-                        Outcome::Decided(d, written, set_err, after) => {
+                        Outcome::Decided(d, written, set_err, after, wrong_pair) => {
+                            if let Some((sf_code, bw_code)) = wrong_pair {
+                                viol(col, &format!("C15|written-modulation|{}|{}", name, cc), "the LDRO decision was taken for the requested (SF, BW), but the chip was given another spreading factor or bandwidth code", || {
+                                    json!({"input": input, "sf_written": sf_code, "bw_code_written": bw_code, "decided_raw": d})
+                                });
+                            }
                             let decided = d != 0;
                             seen.push(decided);
                             col.eval(&format!("{}|{}", cell, name));
@@ -377,7 +399,7 @@ impl Monitor for C15 {
 
 /// LoRa::listen programs a modulation of its own (only the bandwidth is the caller's): the LDRO
 /// setting the chip runs with must follow the same rule for whatever spreading factor was programmed.
-fn listen_drive<RK: RadioKind>(rk: RK, bus: &Bus, decode: fn(&Chip) -> Option<bool>, sf_of: fn(&Chip) -> Option<u8>, bwi: usize, prior: Option<(usize, usize)>, freq: u32) -> Result<(Option<bool>, Option<u8>), String> {
+fn listen_drive<RK: RadioKind>(rk: RK, bus: &Bus, decode: fn(&Chip) -> Option<bool>, sf_of: fn(&Chip) -> Option<u8>, bwi: usize, prior: Option<(usize, usize)>, freq: u32) -> Result<(Option<bool>, Option<u8>, Option<(Option<bool>, Option<u8>)>), String> {
     let mut lora = match trap(|| block_on(lora_phy::LoRa::new(rk, true, NoDelay))) {
         Ok(Ok(l)) => l,
         Ok(Err(e)) => return Err(format!("init: {:?}", e)),
@@ -397,7 +419,23 @@ fn listen_drive<RK: RadioKind>(rk: RK, bus: &Bus, decode: fn(&Chip) -> Option<bo
         Ok(Ok(())) => {
             let l = decode(&bus.chip());
             let f = sf_of(&bus.chip());
-            Ok((l, f))
+            // ... and the reception that was prepared before is prepared again with the very same
+            // parameters: the chip must run with them again, not with what listen() left
+            let mut again = None;
+            if let Some((psf, pbw)) = prior {
+                let r = trap(|| {
+                    let mp = lora.create_modulation_params(SFS[psf], BWS[pbw], CRS[0], freq)?;
+                    let pp = lora.create_rx_packet_params(8, false, 255, true, true, &mp)?;
+                    block_on(lora.prepare_for_rx(lora_phy::RxMode::Continuous, &mp, &pp))?;
+                    block_on(lora.start_rx())
+                });
+                if let Ok(Ok(())) = r {
+                    let l2 = decode(&bus.chip());
+                    let f2 = sf_of(&bus.chip());
+                    again = Some((l2, f2));
+                }
+            }
+            Ok((l, f, again))
         }
         Ok(Err(e)) => Err(format!("{:?}", e)),
         Err(t) => Err(format!("panic: {}", t.msg)),
@@ -455,7 +493,18 @@ fn listen_case(idx: u64, rng: &mut Prng, col: &mut Collector) {
                 m.entry(format!("{}|BW{}", name, BW_NAME[bwi])).or_insert(json!(e));
             }
         }
-        Ok((left, sf)) => {
+        Ok((left, sf, again)) => {
+            if let (Some((l2, f2)), Some((psf, pbw))) = (again, prior) {
+                let (rt, rn) = reference(psf, pbw);
+                if let (Some(l2), Some(f2)) = (l2, f2) {
+                    col.event("prepared_again_after_listen");
+                    if f2 as usize != psf + 5 || (rt == rn && l2 != rt) {
+                        viol(col, &format!("C15|after-listen|{}|sf_ok={}|left={} ref={}|{}", name, f2 as usize == psf + 5, onoff(l2), onoff(rt), cell_class(psf, pbw)), "a reception prepared again after LoRa::listen does not run with its own spreading factor / LDRO setting", || {
+                            json!({"impl": name, "listen_bandwidth": BW_NAME[bwi], "prepared": format!("SF{}/BW{}", psf + 5, BW_NAME[pbw]), "spreading_factor_on_chip": f2, "ldro_on_chip": l2, "reference": rt})
+                        });
+                    }
+                }
+            }
             let Some(sf) = sf.filter(|s| (5..=12).contains(s)) else {
                 col.event("listen_sf_not_decodable");
                 return;
